@@ -900,6 +900,8 @@ def selftest(args):
              "illegal token stepped over in a name position", r"Invariant IllegalRejected is violated"),
             ("MC_Parser", (PARSER_CFG % (2, "small")).replace("DevP2Intended", "DevP2OneAhead").replace("Emit_ = TRUE", "Emit_ = FALSE"),
              "one token of look-ahead after @component(...)", r"Invariant SlotsOwned is violated"),
+            ("MC_Parser", (PARSER_CFG % (3, "small")).replace("DevP2Intended", "DevP2Blind").replace("Emit_ = TRUE", "Emit_ = FALSE"),
+             "slot bodies closed by blindly skipping two tokens", r"Invariant PrefixRejected is violated"),
         ]
         for mod, cfg, what, pat in devs:
             st = run.tlc(mod, cfg, name="Dev_" + mod, timeout=900, workers=4, expect_violation=True)
